@@ -167,6 +167,12 @@ def run(case, out):
                         out.fail("c15.normalize_not_idempotent", {"q": qj, "n1": repr(n1), "n2": repr(n2)})
             check("with_boost", lambda x: x.with_boost(case["boost"]))
             check("replace_absent", lambda x: x.replace("t", "zzz_absent", "new"))
+            # absent as a (field, text) pair although the same text occurs in another field of the query
+            for fname, other in (("t", "w"), ("w", "t")):
+                texts = sorted(set(n["x"] for n in walk(qj) if n["op"] == "term" and n.get("f") == other
+                                   and not any(m["op"] == "term" and m.get("f") == fname and m["x"] == n["x"] for m in walk(qj))))
+                for tx in texts[:2]:
+                    check("replace_absent_in_that_field", lambda x, fname=fname, tx=tx: x.replace(fname, tx, "new"))
             check("apply_identity", lambda x: x.apply(_ident))
             check("accept_identity", lambda x: x.accept(_ident))
             check("copy", copy.copy)
